@@ -59,8 +59,8 @@ def _register(R):
     R.inline_fn("StreamReaderBufferedProtocol._check_for_connection_lost")
     W = "self.__read_waiter"
     taken_back = [
-        ("no-caller-buffer-left-registered (the event loop would write into a buffer nobody owns)", "isnone(self.__external_buffer_view)", "C10"),
-        ("waiter-unregistered", f"isnone({W})", "C10"),
+        ("no-caller-buffer-left-registered (the event loop would write into a buffer nobody owns)", "isnone(self.__external_buffer_view)", "C10 C03"),
+        ("waiter-unregistered", f"isnone({W})", "C10 C03"),
     ]
     R.contract(
         "StreamReaderBufferedProtocol._wait_for_data", self_shape="StreamReaderBufferedProtocolR",
